@@ -46,7 +46,7 @@ func runC15(c *eng.Ctx, tier string) {
 			if !ok || len(fields) == 0 {
 				return
 			}
-			rd, has := fields["ready"]
+			rd, has := fields[watcherChanField(p)]
 			if !has {
 				return // zero watcher (error returns)
 			}
@@ -81,7 +81,7 @@ func runC15(c *eng.Ctx, tier string) {
 					if st.Dir == types.SendOnly {
 						sends++
 						fr, _, isF := eng.LoadedField(st.Chan)
-						c.Check(!x.Blocking && isF && fr.Is(setecPkg, "watcher", "ready"), "R-C15-1", notify, in.Pos(), "send in notify", "a non-blocking select (with default) sending on the watcher's own ready channel", "blocking="+boolStr(x.Blocking))
+						c.Check(!x.Blocking && isF && fr.Is(setecPkg, "watcher", watcherChanField(p)), "R-C15-1", notify, in.Pos(), "send in notify", "a non-blocking select (with default) sending on the watcher's own ready channel", "blocking="+boolStr(x.Blocking))
 					}
 				}
 			}
@@ -270,7 +270,7 @@ func runC15(c *eng.Ctx, tier string) {
 	n4 := 0
 	for _, f := range p.PkgFuncs(setecPkg) {
 		for _, a := range eng.FieldAccesses(f) {
-			if !eng.IsNamed(a.Field.Owner, setecPkg, "Updater") || (a.Field.Name != "value" && a.Field.Name != "err") || freshBase(a.Base) {
+			if !eng.IsNamed(a.Field.Owner, setecPkg, "Updater") || (a.Field.Name != updaterField(p, "value") && a.Field.Name != updaterField(p, "err")) || freshBase(a.Base) {
 				continue
 			}
 			n4++
@@ -331,7 +331,7 @@ func c15Get(c *eng.Ctx) {
 		}
 		if call, _ := eng.TupleCall(st.Chan); call != nil && eng.CalleeIs(&call.Call, setecPkg, "watcher.Ready") {
 			ready = true
-		} else if fr, _, isF := eng.LoadedField(st.Chan); isF && fr.Is(setecPkg, "watcher", "ready") {
+		} else if fr, _, isF := eng.LoadedField(st.Chan); isF && fr.Is(setecPkg, "watcher", watcherChanField(p)) {
 			ready = true
 		}
 	}
@@ -339,7 +339,7 @@ func c15Get(c *eng.Ctx) {
 	// with the watcher's current bytes
 	okArg := p.DependsOn(build.Call.Args[0], func(v ssa.Value) bool {
 		fr, _, isF := eng.LoadedField(v)
-		return isF && fr.Is(setecPkg, "Updater", "w")
+		return isF && fr.Is(setecPkg, "Updater", updaterField(p, "w"))
 	})
 	c.Check(okArg, "R-C15-5", get, build.Pos(), eng.CallStr(&build.Call)+" [input]", "built from the bytes read through the updater's own watcher at that moment", "")
 	berr := saveErr(build)
@@ -364,9 +364,9 @@ func c15Get(c *eng.Ctx) {
 			continue
 		}
 		switch a.Field.Name {
-		case "value":
+		case updaterField(p, "value"):
 			valStores = append(valStores, a.In.(*ssa.Store))
-		case "err":
+		case updaterField(p, "err"):
 			errStores = append(errStores, a.In.(*ssa.Store))
 		}
 	}
@@ -396,7 +396,7 @@ func c15Get(c *eng.Ctx) {
 		ld, fa, isL := loadField(src)
 		okOld := false
 		if isL {
-			if fr, _ := eng.FieldOfAddr(fa); fr.Is(setecPkg, "Updater", "value") {
+			if fr, _ := eng.FieldOfAddr(fa); fr.Is(setecPkg, "Updater", updaterField(p, "value")) {
 				okOld = true
 				for _, st := range valStores {
 					// the load must not be after the store
@@ -444,7 +444,7 @@ func c15Get(c *eng.Ctx) {
 		ld, fa, isL := loadField(eng.Origin(rv[0]))
 		okk := false
 		if isL {
-			if fr, _ := eng.FieldOfAddr(fa); fr.Is(setecPkg, "Updater", "value") {
+			if fr, _ := eng.FieldOfAddr(fa); fr.Is(setecPkg, "Updater", updaterField(p, "value")) {
 				okk = true
 				for _, st := range valStores {
 					// a store after the load would make the result stale
